@@ -1,0 +1,10 @@
+//go:build verif
+
+// Contracts for the deductive checks under /verif (comment-only; compiled only with -tags verif).
+
+package types
+
+//@ func bloom9
+//@   ensures[C16] result != nil && big(result) >= 0
+//@   loop 1 invariant[C16] (i == 0 || i == 2 || i == 4 || i == 6) && len(b) == 32 && r != nil && big(r) >= 0
+//@   nopanic[C16]
